@@ -30,6 +30,8 @@ struct counted {
     counted(int x) : v(x) { ++ctor; }
     counted(const counted &o) : v(o.v) { ++ctor; }
     counted(counted &&o) : v(o.v) { ++ctor; }
+    counted &operator=(const counted &o) { v = o.v; return *this; }
+    counted &operator=(counted &&o) { v = o.v; return *this; }
     ~counted() { ++dtor; }
 };
 // a payload whose construction from a negative int throws (inside future::set, after the promise was claimed)
@@ -57,12 +59,74 @@ template <> struct P<std::unique_ptr<int>> {
 
 static int ref_cells[64];
 
+// promise_with_default_v / _vp need compile-time defaults: the input must name exactly these values
+constexpr int PWD_V = 77;
+extern const int pwd_vp_cell;
+const int pwd_vp_cell = 78;
+
+// the protected static entry points of promise<T> (meant for derived promise classes): set() / resolve()
+template <typename T>
+struct derived_promise : promise<T> {
+    template <typename... A> static void do_set(future<T> *f, A &&...a) { promise<T>::set(f, std::forward<A>(a)...); }
+    static void do_resolve(future<T> *f) { promise<T>::resolve(f); }
+};
+
 template <typename T>
 struct Scn {
     using FT = future<T>;
     std::optional<FT> fut;
-    std::optional<promise<T>> prom;
+    promise<T> *prom = nullptr;            // the (base sub-)object every call goes through
+    std::function<void()> prom_deleter;    // destroys the real object: promise<T> or one of the promise_with_default classes
+    std::string pwd_kind;                  // "" (plain promise), "def", "defv", "defvp"
+    int pwd_val = 0;
     std::vector<int> obs_count;
+
+    void kill_prom() {
+        if (prom) { auto d = std::move(prom_deleter); prom = nullptr; d(); }
+    }
+    template <typename PT, typename... A>
+    void make_prom(A &&...a) {
+        auto *o = new PT(std::forward<A>(a)...);
+        prom = o;
+        prom_deleter = [o] { delete o; };
+    }
+    static constexpr bool pwd_ok = !std::is_void_v<T> && !std::is_reference_v<T> && !std::is_same_v<T, thrower>;
+    void create_promise() {
+        if constexpr (pwd_ok) {
+            if (pwd_kind == "def") { make_prom<promise_with_default<T>>(fut->get_promise(), P<T>::make(pwd_val)); return; }
+            if constexpr (std::is_same_v<T, int>) {
+                if (pwd_kind == "defv") { make_prom<promise_with_default_v<int, PWD_V>>(fut->get_promise()); return; }
+                if (pwd_kind == "defvp") { make_prom<promise_with_default_vp<int, &pwd_vp_cell>>(fut->get_promise()); return; }
+            }
+        }
+        make_prom<promise<T>>(fut->get_promise());
+    }
+    // a = std::move(b) into a fresh object with default `va`, then both objects die (b first, it owns nothing any more)
+    void assign_from(int va) {
+        if constexpr (pwd_ok) {
+            if (pwd_kind == "def") {
+                promise_with_default<T> a(promise<T>(), P<T>::make(va));
+                a = std::move(*static_cast<promise_with_default<T> *>(prom));
+                kill_prom();
+                return;
+            }
+            if constexpr (std::is_same_v<T, int>) {
+                if (pwd_kind == "defv") {
+                    promise_with_default_v<int, PWD_V> a;
+                    a = std::move(*static_cast<promise_with_default_v<int, PWD_V> *>(prom));
+                    kill_prom();
+                    return;
+                }
+                if (pwd_kind == "defvp") {
+                    promise_with_default_vp<int, &pwd_vp_cell> a;
+                    a = std::move(*static_cast<promise_with_default_vp<int, &pwd_vp_cell> *>(prom));
+                    kill_prom();
+                    return;
+                }
+            }
+        }
+        kill_prom();
+    }
 
     void log(const std::string &s) { S().log_line(s); }
 
@@ -133,7 +197,16 @@ struct Scn {
         } else if (kind == "hasv") {
             hasv_waiter(w).detach();
         } else if (kind == "sync") {
-            obs(w, observe([&]() -> decltype(auto) { return fut->wait(); }));
+            // every blocking spelling is the same op sequence (ready() load, subscribe CAS loop, flag.wait, value()):
+            // which one is used depends on the waiter's index only
+            switch (w % 6) {
+                case 0: obs(w, observe([&]() -> decltype(auto) { return fut->wait(); })); break;
+                case 1: obs(w, observe([&]() -> decltype(auto) { return fut->force_wait(); })); break;
+                case 2: fut->sync(); obs(w, observe([&]() -> decltype(auto) { return fut->value(); })); break;
+                case 3: fut->force_sync(); obs(w, observe([&]() -> decltype(auto) { return fut->value(); })); break;
+                case 4: obs(w, observe([&]() -> decltype(auto) { return fut->join(); })); break;
+                default: obs(w, observe([&]() -> decltype(auto) { return **fut; })); break;
+            }
         } else if (kind == "cb") {
             auto c = new cb_ctx{this, w, fut->operator co_await()};
             if (c->awt.await_ready() || !c->awt.await_suspend(&cb_fn, c)) {
@@ -145,7 +218,17 @@ struct Scn {
 
     void resolver_body(const std::vector<std::string> &a, int tid) {
         bool r = false;
-        if (a[1] == "value") {
+        if (a[1] == "value" && atoi(a[2].c_str()) % 3 == 2) {
+            // a derived promise class resolving by hand: claim(), static set(), static resolve() (the suspend point is flushed inside)
+            int v = atoi(a[2].c_str());
+            if (auto m = prom->claim()) {
+                if constexpr (std::is_void_v<T>) derived_promise<T>::do_set(m);
+                else if constexpr (std::is_reference_v<T>) { ref_cells[tid] = v; derived_promise<T>::do_set(m, ref_cells[tid]); }
+                else derived_promise<T>::do_set(m, P<T>::make(v));
+                derived_promise<T>::do_resolve(m);
+                r = true;
+            }
+        } else if (a[1] == "value") {
             int v = atoi(a[2].c_str());
             if constexpr (std::is_void_v<T>) { auto sp = (*prom)(); r = sp; }
             else if constexpr (std::is_reference_v<T>) { ref_cells[tid] = v; auto sp = (*prom)(ref_cells[tid]); r = sp; }
@@ -179,11 +262,40 @@ struct Scn {
         log("ret t" + std::to_string(tid) + " " + (r ? "1" : "0"));
     }
 
+    // the static factories build an already resolved future: same observations as a future resolved through a promise
+    void factories() {
+        {
+            FT f = FT::set_exception(std::make_exception_ptr(test_exc(5)));
+            if (!f.ready() || observe([&]() -> decltype(auto) { return f.value(); }) != "exc:5") anomaly("future::set_exception factory");
+        }
+        {
+            FT f = FT::set_not_value();
+            if (!f.ready() || observe([&]() -> decltype(auto) { return f.value(); }) != "canceled") anomaly("future::set_not_value factory");
+        }
+        if constexpr (std::is_void_v<T>) {
+            FT f = FT::set_value();
+            if (!f.ready() || observe([&]() -> decltype(auto) { return f.value(); }) != "v") anomaly("future::set_value factory");
+        } else if constexpr (std::is_reference_v<T>) {
+            ref_cells[63] = 9;
+            FT f = FT::set_value(ref_cells[63]);      // future(__SetReferenceTag, ...)
+            if (!f.ready() || &f.value() != &ref_cells[63]) anomaly("future::set_value factory (reference)");
+        } else {
+            FT f = FT::set_value(P<T>::make(9));
+            if (!f.ready() || observe([&]() -> decltype(auto) { return f.value(); }) != "v:9") anomaly("future::set_value factory");
+        }
+    }
+
     bool assign_end = false;   // the controller overwrites the promise by move-assignment instead of destroying it
+    int assign_from_val = -1;  // >= 0: the controller move-assigns the promise_with_default into a fresh one with this default
+    int anomalies = 0;
+    void anomaly(const std::string &s) { anomalies++; log("anomaly " + s); }
 
     void run(const std::vector<std::vector<std::string>> &threads, const std::vector<int> &sched, bool destroy_promise) {
         fut.emplace();
-        prom.emplace(fut->get_promise());
+        if (!fut->initialized()) anomaly("initialized() of a fresh future");   // (as coded: true exactly in the fresh state)
+        create_promise();
+        if (fut->initialized()) anomaly("initialized() after get_promise()");
+        if (prom->get_id() != static_cast<const void *>(&*fut)) anomaly("get_id() of the owning promise");
         S().name_obj(&fut->_awaiter, "slot");
         S().name_obj(&prom->_owner, "owner");
         S().name_ptr(&awaiter::instance, "inst");
@@ -202,7 +314,7 @@ struct Scn {
                     return true;
                 };
                 if (!pred()) { S().log_op("wait-block resolvers"); S().block(pred); }
-                prom.reset();
+                kill_prom();
             });
             else S().spawn([this, t, tid] { waiter_body(t[1], tid); });
             tid++;
@@ -216,13 +328,38 @@ struct Scn {
         }
         if (destroy_promise) {
             // move-assignment over a promise that may still own the future must drop that future first
-            if (assign_end && prom) *prom = promise<T>();
-            prom.reset();
+            if (assign_end && prom) {
+                bool done = false;
+                if constexpr (pwd_ok) {
+                    // promise_with_default::operator= over a promise that still owns the future drops that future as well
+                    if (pwd_kind == "def") {
+                        *static_cast<promise_with_default<T> *>(prom) = promise_with_default<T>(promise<T>(), P<T>::make(pwd_val + 1));
+                        done = true;
+                    }
+                }
+                if (!done) *prom = promise<T>();
+                if (prom->get_id() != nullptr) anomaly("get_id() of an emptied promise");
+            }
+            if (assign_from_val >= 0 && prom) assign_from(assign_from_val);
+            kill_prom();
             log("promise-destroyed");
         }
         std::string st = fut->ready() ? "ready" : "pending";
         std::string val = "-";
-        if (fut->ready()) val = observe([&]() -> decltype(auto) { return fut->value(); });
+        if (fut->ready()) {
+            val = observe([&]() -> decltype(auto) { return fut->value(); });
+            // the const accessor and the negated has_value() are spellings of the same observation
+            std::string cval = observe([&]() -> decltype(auto) {
+                if constexpr (std::is_void_v<T>) return std::as_const(*fut).value();
+                else return const_cast<typename FT::reference>(std::as_const(*fut).value());
+            });
+            if (cval != val) anomaly("const value() " + cval + " vs value() " + val);
+            bool hv = fut->_state != future_common::State::not_value;
+            if (!*fut != !hv) anomaly("operator! disagrees with the state");
+            if (static_cast<bool>(*fut) != hv) anomaly("operator bool disagrees with the state");
+            if (fut->initialized()) anomaly("initialized() of a resolved future");
+        }
+        factories();
         log("final " + st + " " + val + " hv=" + (fut->ready() ? (fut->_state != future_common::State::not_value ? "1" : "0") : "-"));
         for (std::size_t i = 0; i < threads.size(); i++)
             if (threads[i][0] == "w") log("waiter w" + std::to_string(i) + " released=" + std::to_string(obs_count[i]));
@@ -237,19 +374,24 @@ static void run_case(const std::vector<std::string> &hdr, const std::vector<std:
     std::vector<int> sched;
     bool destroy = true;
     bool assign_end = false;
+    int assign_from = -1;
+    std::string pwd_kind;
+    int pwd_val = 0;
     for (auto &w : lines) {
         if (w[0] == "assign-end") assign_end = true;
+        if (w[0] == "assign-from" && w.size() > 1) assign_from = atoi(w[1].c_str());
+        if (w[0] == "pwd" && w.size() > 2) { pwd_kind = w[1]; pwd_val = atoi(w[2].c_str()); }
         if (w[0] == "r" || w[0] == "w" || w[0] == "d") threads.push_back(w);
         else if (w[0] == "sched") for (std::size_t i = 1; i < w.size(); i++) sched.push_back(atoi(w[i].c_str()));
         else if (w[0] == "keep-promise") destroy = false;
     }
     std::string T = hdr.size() > 3 ? hdr[3] : "int";
-    if (T == "int") { Scn<int> s; s.assign_end = assign_end; s.run(threads, sched, destroy); }
-    else if (T == "void") { Scn<void> s; s.assign_end = assign_end; s.run(threads, sched, destroy); }
-    else if (T == "uptr") { Scn<std::unique_ptr<int>> s; s.assign_end = assign_end; s.run(threads, sched, destroy); }
-    else if (T == "ref") { Scn<int &> s; s.assign_end = assign_end; s.run(threads, sched, destroy); }
-    else if (T == "counted") { Scn<counted> s; s.assign_end = assign_end; s.run(threads, sched, destroy); }
-    else if (T == "thrower") { Scn<thrower> s; s.assign_end = assign_end; s.run(threads, sched, destroy); }
+    if (T == "int") { Scn<int> s; s.assign_end = assign_end; s.assign_from_val = assign_from; s.pwd_kind = pwd_kind; s.pwd_val = pwd_val; s.run(threads, sched, destroy); }
+    else if (T == "void") { Scn<void> s; s.assign_end = assign_end; s.assign_from_val = assign_from; s.pwd_kind = pwd_kind; s.pwd_val = pwd_val; s.run(threads, sched, destroy); }
+    else if (T == "uptr") { Scn<std::unique_ptr<int>> s; s.assign_end = assign_end; s.assign_from_val = assign_from; s.pwd_kind = pwd_kind; s.pwd_val = pwd_val; s.run(threads, sched, destroy); }
+    else if (T == "ref") { Scn<int &> s; s.assign_end = assign_end; s.assign_from_val = assign_from; s.pwd_kind = pwd_kind; s.pwd_val = pwd_val; s.run(threads, sched, destroy); }
+    else if (T == "counted") { Scn<counted> s; s.assign_end = assign_end; s.assign_from_val = assign_from; s.pwd_kind = pwd_kind; s.pwd_val = pwd_val; s.run(threads, sched, destroy); }
+    else if (T == "thrower") { Scn<thrower> s; s.assign_end = assign_end; s.assign_from_val = assign_from; s.pwd_kind = pwd_kind; s.pwd_val = pwd_val; s.run(threads, sched, destroy); }
     S().log_line("end");
 }
 
